@@ -37,7 +37,8 @@
 //     only that they are the same bytes every time. Those are other properties' subjects.
 //   - error texts are not compared (only error-ness, the bytes written by a failed call, and
 //     that no foreign canary occurs in the text).
-//   - v-for over a map: documented "iteration order for maps is unspecified"; no program does it.
+//   - the ORDER in which a v-for over a map visits the keys (documented as unspecified); that it
+//     is the same order every time is asserted (x-map-loops; known finding while it is open).
 //   - that a program marked Fails fails (C12's subject); error-ness is compared with the fresh run.
 //   - there is no wall clock and no RNG in the check; v-once bookkeeping ids are internal, if
 //     they (or anything time/random seeded) reached the output, (i)/(ii) report it.
@@ -138,7 +139,8 @@ type engine struct {
 
 // rootOf creates the root template. cat.Program.Engine knows the option "components"; the
 // local options "less" (vuego.WithLessProcessor) and "proc" (vuego.WithProcessor(stamp{}), an
-// in-place attribute-editing node processor) are added here.
+// in-place attribute-editing node processor) and "onelayer" (the filesystem presented through a
+// vuego.OverlayFS) are added here.
 func rootOf(opts cat.Program, fsys fs.FS) vuego.Template {
 	less, proc := false, false
 	for _, o := range opts.Opts {
@@ -147,6 +149,12 @@ func rootOf(opts cat.Program, fsys fs.FS) vuego.Template {
 			less = true
 		case "proc":
 			proc = true
+		case "onelayer":
+			// the files behind a vuego.OverlayFS of two layers in which every directory of the
+			// program exists in ONE layer only (the other layer holds a single unrelated file)
+			if m, ok := fsys.(*memfs.FS); ok {
+				fsys = vuego.NewOverlayFS(m, memfs.FromMap(map[string]string{"lower-layer-only.txt": "x"}))
+			}
 		}
 	}
 	if !less && !proc {
@@ -1301,6 +1309,12 @@ func TestProp(t *testing.T) {
 	}
 
 	run.Witnesses(rec, prop, replay)
+	if mapOrderOpen && run.First() {
+		// loop sources cut down to one key while the finding is open (see loopMap / yamlMap)
+		for i := 0; i < mapsCut; i++ {
+			rec.Excluded(fMapOrder)
+		}
+	}
 	shard, shards := run.Shard()
 	i := 0
 	ok := true
@@ -1318,6 +1332,11 @@ func TestProp(t *testing.T) {
 	// nondeterminism probe: every hazard program x entry, 30 renders on one engine + 30 fresh engines
 	cs := combos()
 	for _, cb := range cs {
+		if hasFeat(cb.p, "many-engines") {
+			// determinism ACROSS engines: 40 fresh engines over identical files (and 40 renders on
+			// one) must all give the same bytes
+			each("probe", Case{Mode: "probe", Steps: []Step{{Prog: cb.p.Name, Entry: cb.entry, K: 40}}})
+		}
 		if isHazard(cb.p) {
 			for v := 0; v < 3 && (v == 0 || len(cb.p.Data) > 0); v++ {
 				each("probe", Case{Mode: "probe", Steps: []Step{{Prog: cb.p.Name, Entry: cb.entry, K: 30, Var: v}}})
@@ -1448,7 +1467,10 @@ func TestProp(t *testing.T) {
 		}
 		core = append(core, cb)
 	}
-	pairHistories("pairs", core, false, func(int, int) bool { return true })
+	// thorough: the full square. quick: with 70+ programs the square no longer fits the quick
+	// budget; every third chunk is taken, rotating with A, so that every ordered pair of PROGRAMS
+	// still meets through several entry pairs and every (program, entry) is A for a third of the Bs.
+	pairHistories("pairs", core, false, func(ai, chunk int) bool { return run.Thorough() || (ai+chunk)%3 == 0 })
 	// the same with one engine and one filesystem for all programs that can share them
 	// (thorough: all ordered pairs; quick: every third chunk, rotating with A)
 	sh := sharedSet()
@@ -1503,8 +1525,10 @@ func TestProp(t *testing.T) {
 			}
 		}
 	}
-	if ok {
+	if ok && run.Thorough() {
 		rec.Exhaustive(fmt.Sprintf("all ordered pairs (A, B) of %d applicable (program, entry) combinations (one member per twin family; quick: without the entries string/byte, which delegate to reader) of %d programs as history A, B, A on long-lived engines; all ordered pairs of twin-family members x entry pairs on the shared engine; every (program, entry) with every value typing first on the engine followed by the others; every hazard program x entry x data variant probed 30+30 times; every (program, entry) through the data variants 0,1,0,2,1,0 on one engine", len(core), len(named)))
+	} else if ok {
+		rec.Exhaustive(fmt.Sprintf("kinds probe, variants, retyped, kept, edits-core, fm-shared, twins-shared ran to completion over %d programs; the pair core is exhaustive in the thorough tier only (quick: every third chunk)", len(named)))
 	}
 
 	run.Rapid(t, rec, "history", genHistory, classify, check)
